@@ -164,7 +164,7 @@ def rand_elem(rng, d2_pattern=None):
 
 def rand_abbr(rng, depth=0):
     s = rand_elem(rng)
-    for _ in range(rng.randint(0, 3)):
+    for _ in range(rng.randint(0, 3) if rng.random() < 0.9 or depth else rng.randint(8, 20)):
         op = rng.choice(['>', '+', '^', '>', '>'])
         if rng.random() < 0.2 and depth < 2:
             s += op.replace('^', '+') + '(' + rand_abbr(rng, depth + 1) + ')' + rng.choice(['', '*2'])
@@ -203,7 +203,7 @@ def d1_ok(line, a_start, a_end):
     return True
 
 
-LEFTS = ['', ' ', '\t', 'foo ', 'foo: ', 'some text ', '<div>', '<div class="x">', '</p>', '<br/>', '<input disabled>', 'text <b>', "<a title='q r'>",
+LEFTS = ['', ' ', '\t', 'foo ', 'foo: ', 'some text ', 'lorem ipsum dolor sit amet, consectetur adipiscing elit, sed do ' * 3, '<div class="a b c d e f" id="x" data-k="v w" hidden>', '<div>', '<div class="x">', '</p>', '<br/>', '<input disabled>', 'text <b>', "<a title='q r'>",
          '<ul id="a" data-b="c d">', '<img src="a.png" />', '<p hidden>', '</h1>', '<h2 class="x">', '<x1>', '<col-2 a1>', '</ns:t2>']
 LEFTS_D2 = ['<a href=x>', '<div class=y id=z>', '<img src=a.png alt=b>']
 RIGHTS = ['', ' foo', '</div>', '\n']
